@@ -1887,56 +1887,19 @@ namespace
 }
 
 #ifdef VF_FUZZ
-// coverage-guided campaign (clang -fsanitize=fuzzer,address,undefined): libFuzzer mutates the decision stream of the generators
-// (grid, operator sequence, field / mask / base-level classes, history); every byte string is a valid case and is judged by the
-// same oracles as the generated cases. VF_FUZZ_PROP selects the property whose violations stop the campaign ("all": sanitizer
-// reports and table-width invariants only); VF_FUZZ_KNOWN lists "<property>:<key>" pairs of known findings.
-namespace
-{
-    Runner* g_fuzz_runner = nullptr;
-    void fuzz_finish()
-    {
-        if (g_fuzz_runner)
-            g_fuzz_runner->finish();
-    }
-}
-
+// coverage-guided campaign: libFuzzer mutates the decision stream of the generators; every byte string is a valid case judged by
+// the same oracles as the generated cases (see runner.hpp fuzz_one and DESIGN.md section 14)
 extern "C" int
 LLVMFuzzerTestOneInput(const std::uint8_t* data, std::size_t size)
 {
-    static std::string prop;
-    static long k = 0;
-    if (!g_fuzz_runner)
-    {
-        Args a;
-        const char* p = std::getenv("VF_FUZZ_PROP");
-        a.prop = p ? p : "C06";
-        a.tier = "quick";
-        a.cases = 0;
-        prop = a.prop;
-        g_fuzz_runner = new Runner(a, "h_flow", grid_name);
-        g_fuzz_runner->set_fuzz(std::getenv("VF_FUZZ_KNOWN"));
-        std::atexit(fuzz_finish);
-    }
-    Runner& R = *g_fuzz_runner;
-    std::uint64_t head = 0;
-    std::memcpy(&head, data, size < 8 ? size : 8);
-    Rng rng(0x5eedULL, head);  // what follows the buffer depends on its first bytes only: local mutations stay local
-    rng.set_source(data, size);
-    R.begin(k++);
-    try
-    {
-        if (prop == "C15" || (prop == "all" && rng.chance(0.2)))
-            basin_case(R, rng, 9);
-        else
-            flow_case(R, rng, prop, 9);
-    }
-    catch (const std::exception& e)
-    {
-        R.violation(prop == "all" ? "C08" : prop, std::string("exception/") + typeid(e).name(), JObj().s("what", e.what()).str());
-    }
-    R.end();
-    return 0;
+    return fuzz_one("h_flow", grid_name, "C06", data, size,
+                    [](Runner& R, Rng& rng, const std::string& prop)
+                    {
+                        if (prop == "C15" || (prop == "all" && rng.chance(0.2)))
+                            basin_case(R, rng, 9);
+                        else
+                            flow_case(R, rng, prop, 9);
+                    });
 }
 #else
 int
